@@ -97,6 +97,10 @@ def gen_fs_model(root, notes):
             req.append('self.may_%s(%s), // [cap]' % (name, ', '.join(se for (_, _, se) in cap_params)))
         if ret:
             ens.append('res == self.s_%s(%s)' % (name, ', '.join(se for (_, _, se) in sparams)))
+        if name == 'open':
+            # C10: opening can itself modify (open(2): O_TRUNC truncates whatever the access mode, O_CREAT creates, a write access mode lets
+            # later writes through); on a layer that is not the upper one only flag words that cannot do any of that are allowed
+            req.append('self.is_upper() || sp_open_harmless(flags), // [C10.open.lower_flags] a lower layer is only ever opened with flags that cannot change it: access mode O_RDONLY, no O_CREAT, no O_TRUNC')
         if name == 'read':
             # read(2) on the layer's file: up to `size` bytes from `offset` land in `w` at its cursor (the overlay appends to a fresh temporary
             # file); 0 bytes only at or beyond the end of the file
@@ -126,7 +130,10 @@ pub type Inode = u64;
 pub type Handle = u64;
 pub type Result<T> = core::result::Result<T, io::Error>;
 pub use io::{Error, ErrorKind};
-#[derive(Clone, Copy)] pub struct OpenOptions { pub bits: u32 }
+// open(2): the flag bits through which an open can change the file or the directory it is in - a write access mode (O_WRONLY 1, O_RDWR 2,
+// and the reserved mode 3), O_CREAT (0o100), O_TRUNC (0o1000; it truncates even with O_RDONLY when the caller may write the file).
+// O_APPEND / O_NOFOLLOW / O_DIRECT / O_NOATIME / O_CLOEXEC / O_NONBLOCK / O_SYNC change nothing by themselves; O_TMPFILE needs a write mode.
+pub open spec fn sp_open_harmless(flags: u32) -> bool { flags & 0o1103u32 == 0 }
 impl Context {
     // #[derive(Default)] on three integer fields
     pub fn default() -> (r: Context) ensures r == (Context { uid: 0, gid: 0, pid: 0 }) { Context { uid: 0, gid: 0, pid: 0 } }
@@ -271,6 +278,7 @@ def common_items(root, notes, with_setattr=False):
     ]
     from vx import flagsmodel
     items += flagsmodel.items(root, ABI, 'SetattrValid')
+    items += flagsmodel.items(root, ABI, 'OpenOptions')
     items += [Raw(T), Raw(I)]
     return items
 
@@ -385,3 +393,11 @@ pub fn vx_list_names(l: &Arc<LayerObj>, ctx: &Context, inode: u64, handle: u64) 
     ensures r is Ok ==> (forall|n: Seq<char>| s_dirnames(&**l, *ctx, inode).contains(n) <==> exists|i: int| 0 <= i < r->Ok_0@.len() && (#[trigger] r->Ok_0@[i])@ == n)
 { unimplemented!() }
 '''
+
+
+def has_lower_flag(root):
+    """does `struct OverlayInode` of this tree have the `lower_exists: AtomicBool` field?  Decided on the struct's own text with comments and
+    strings blanked (a comment mentioning the field, another visibility or spacing do not change the answer); the units choose the REC model by it."""
+    src = X.Source(root, OVL)
+    text, _line, _attrs = src.find_item(r'pub\(crate\) struct OverlayInode\b')
+    return re.search(r'\blower_exists\s*:\s*AtomicBool\b', X.mask(text)) is not None
